@@ -78,6 +78,12 @@ MENU = [
     ('alias-int', lambda: Typedef('FooCount', 'guint')),
     ('alias-chain', lambda: Typedef('FooCount2', 'FooCount')),
     ('alias-ptr', lambda: Typedef('FooHandle', 'gpointer')),
+    # uses of a typedef of a typedef, and of a typedef of a local record, as parameter / return / field type
+    ('alias-chain-fn', lambda: Func('foo_count_next', 'FooCount2', [('FooCount2', 'c'), ('FooCount', 'd')])),
+    ('alias-chain-field', lambda: TypedefAnon('FooCounted', [Field('c2', 'FooCount2'), Field('c1', 'FooCount'), Field('n', 'int')])),
+    ('alias-rec', lambda: Typedef('FooRecAlias', 'FooRec')),
+    ('alias-rec-fn', lambda: Func('foo_rec_alias_get', 'FooRecAlias*', [('FooRecAlias*', 'r')])),
+    ('alias-rec-field', lambda: TypedefAnon('FooRecHolder', [Field('p', 'FooRecAlias*'), Field('n', 'int')])),
     ('union', lambda: TypedefAnon('FooVal', [Field('i', 'int'), Field('d', 'double'), Field('p', 'gpointer')], union=True)),
     ('rec-anon', lambda: TypedefAnon('FooPoint', [Field('x', 'int'), Field('y', 'int'), Field('bits', 'guint', bits=3)])),
     ('rec-cbfield', lambda: TypedefAnon('FooVTable', [FieldCb('open', 'int', [('const char*', 'path')]), Field('data', 'gpointer'),
@@ -125,7 +131,9 @@ COMMENTS = {
 
 # menu items that mention a type another item declares: a header using the name without the
 # declaration would not be valid C, so subsets are closed under these requirements
-REQUIRES = {'alias-chain': ('alias-int',), 'const-alias': ('alias-int',)}
+REQUIRES = {'alias-chain': ('alias-int',), 'const-alias': ('alias-int',),
+            'alias-chain-fn': ('alias-int', 'alias-chain'), 'alias-chain-field': ('alias-int', 'alias-chain'),
+            'alias-rec-fn': ('alias-rec',), 'alias-rec-field': ('alias-rec',)}
 
 
 def close(keys):
@@ -297,6 +305,11 @@ DEP_MENU = [
     ('dep-out', lambda: Func('foo_dep_out', 'void', [('FooDepRec**', 'd'), ('FooRec**', 'l')])),
     ('dep-field', lambda: TypedefAnon('FooHolder', [Field('local', 'FooRec*'), Field('dep', 'FooDepRec*'), Field('kind', 'FooDepKind'),
                                                      Field('emb', 'FooDepRec'), Field('lemb', 'FooRec')])),
+    # by-value members from EVERY included namespace in one record (FooDep, GLib, GObject): layout computation has to
+    # find each of them whatever the order of the includes
+    ('dep-embed-mixed', lambda: TypedefAnon('FooMixedEmb', [Field('d', 'FooDepRec'), Field('l', 'GList'), Field('v', 'GValue'),
+                                                            Field('k', 'FooDepKind'), Field('s', 'GSeekType'), Field('t', 'FooRec')])),
+    ('dep-embed-glib', lambda: TypedefAnon('FooGlibEmb', [Field('l', 'GList'), Field('s', 'GSeekType')])),
     ('dep-cbtype', lambda: Callback('FooMixed', 'FooDepRec*', [('FooRec*', 'l'), ('FooDepRec*', 'd')])),
     ('dep-alias', lambda: Typedef('FooDepAlias', 'FooDepRec')),
     ('dep-list', lambda: Func('foo_dep_list', 'GList*', [('GSList*', 'in')])),
@@ -340,7 +353,7 @@ def _work_dep(chunk):
                 part.outcome(('scanner-error', (r.error or '')[:40]))
                 part.add(unspecified=1)
                 continue
-            if b'FooDep.' not in r.xml:
+            if b'FooDep.' not in r.xml and set(keys) != {'dep-embed-glib'}:
                 part.violation('harness:dep-reference-missing:%s' % '+'.join(keys), 'the scanned GIR has no FooDep.-qualified reference',
                                {'dep_keys': list(keys), 'c': fake.c_of(decls)})
             probs = check_gir(b, r.xml, wd, [DEPDIR15, DEPS], 'Foo-1.0')
